@@ -491,4 +491,385 @@ Section SessSound.
         cbn. auto.
       + destruct (nk_trig _ _ HK k t Hold) as (f & Hf & Hrest). exists f. split; [apply in_or_app; right; exact Hf|exact Hrest].
   Qed.
+  (* ---------------- Add ---------------- *)
+  Definition ontime_b (cs : ncst) (ts : Z) : bool :=
+    nsane c base ts && (match m_maxts cs with None => true | Some m => m - nooo c <=? ts end).
+  Definition cs_add (cs : ncst) (id ts key : Z) : ncst :=
+    {| m_seen := m_seen cs ++ [(id, ts, key)];
+       m_maxts := if nsane c base ts then Some (omaxz ts (m_maxts cs)) else m_maxts cs;
+       m_ontime := if ontime_b cs ts then m_ontime cs ++ [(id, ts, key)] else m_ontime cs;
+       m_dw := m_dw cs; m_lastw := m_lastw cs; m_fired := m_fired cs; m_lastadd := Some (id, ts, key);
+       m_emitted := m_emitted cs |}.
+
+  Lemma add_ev cs id ts key : nchk_ev c base cs (SvAdd id ts key) = (cs_add cs id ts key, []).
+  Proof. reflexivity. Qed.
+
+  Lemma add_WK s cs id ts key :
+    NK s cs ->
+    WK tc base (update_event_time (nooo c) base ts (n_w s)) (map rw (m_seen (cs_add cs id ts key)))
+       (m_maxts (cs_add cs id ts key)) (m_lastw cs).
+  Proof.
+    intros HK. pose proof (uet_WK tc base (n_w s) (map rw (m_seen cs)) (m_maxts cs) (m_lastw cs) id ts (nk_wk _ _ HK)) as H.
+    cbn [cs_add m_seen m_maxts]. rewrite map_app. exact H.
+  Qed.
+
+  Lemma late_iff_not_ontime s cs ts :
+    NK s cs -> nsane c base ts = true ->
+    is_late ts (update_event_time (nooo c) base ts (n_w s)) = negb (ontime_b cs ts).
+  Proof.
+    intros HK Hsn. pose proof (add_WK s cs 0 ts 0 HK) as [_ Hc _ _ _ _]. cbn [cs_add m_maxts] in Hc. rewrite Hsn in Hc.
+    cbn [option_map tc ooo] in Hc. unfold is_late. rewrite Hc. unfold ontime_b. rewrite Hsn. cbn [andb].
+    destruct (m_maxts cs) as [m|]; cbn [omaxz negb].
+    - destruct (m - nooo c <=? ts) eqn:E; cbn [negb]; [apply Z.leb_le in E; apply Z.ltb_ge; lia|apply Z.leb_gt in E; apply Z.ltb_lt; lia].
+    - apply Z.ltb_ge. lia.
+  Qed.
+
+  Lemma fshape_seen seen ont f r : fshape seen ont f -> fshape (seen ++ [r]) ont f.
+  Proof.
+    intros [H1 H2]. split; [exact H1|]. intros a Ha. destruct (H2 a Ha) as (A & B & C & D).
+    split; [exact A|]. split; [apply in_or_app; left; exact B|]. split; [exact C|exact D].
+  Qed.
+
+  Lemma fshape_both seen ont f r : ~ In (kid r) (map kid seen) -> fshape seen ont f -> fshape (seen ++ [r]) (ont ++ [r]) f.
+  Proof.
+    intros Hfresh [H1 H2]. split; [exact H1|]. intros a Ha. destruct (H2 a Ha) as (A & B & C & D).
+    split; [exact A|]. split; [apply in_or_app; left; exact B|]. split; [exact C|].
+    intros Hin. apply in_app_or in Hin as [Hin|[Hin|[]]]; [exact (D Hin)|]. subst a. exfalso. apply Hfresh. apply in_map. exact B.
+  Qed.
+
+  (* the row changes neither the open nor the retained sessions (far-future, or late and dropped) *)
+  Lemma NK_inert s cs id ts key :
+    NK s cs -> ~ In id (map kid (m_seen cs)) -> ontime_b cs ts = false ->
+    NK {| n_sess := n_sess s; n_trig := n_trig s; n_w := update_event_time (nooo c) base ts (n_w s); n_pend := n_pend s |}
+       (cs_add cs id ts key).
+  Proof.
+    intros HK Hfresh Hno. pose proof (add_WK s cs id ts key HK) as Hwk.
+    constructor; cbn [n_sess n_trig n_w n_pend]; try exact Hwk; cbn [cs_add m_seen m_maxts m_ontime m_dw m_lastw m_fired m_emitted];
+      try rewrite Hno.
+    - exact (nk_keys _ _ HK).
+    - exact (nk_wf _ _ HK).
+    - apply uet_ok. exact (nk_wmok _ _ HK).
+    - intros p Hp. apply uet_mono. exact (nk_pend _ _ HK p Hp).
+    - exact (nk_dw _ _ HK).
+    - rewrite map_app. apply NoDup_snoc; [exact (nk_nodup _ _ HK)|exact Hfresh].
+    - intros r Hr. destruct (nk_ont _ _ HK r Hr) as [H1 H2]. split; [apply in_or_app; left; exact H1|exact H2].
+    - intros i Hi. rewrite map_app. apply in_or_app. left. exact (nk_emit_seen _ _ HK i Hi).
+    - exact (nk_sess _ _ HK).
+    - exact (nk_cover _ _ HK).
+    - intros f Hf. apply uet_mono. exact (nk_fcur _ _ HK f Hf).
+    - exact (nk_fsess _ _ HK).
+    - intros f Hf. apply fshape_seen. exact (nk_fshape _ _ HK f Hf).
+    - exact (nk_fnd _ _ HK).
+    - exact (nk_trig _ _ HK).
+  Qed.
+
+  (* an on-time row joins (or opens) the session of its key *)
+  Lemma NK_accept s cs id ts key se' :
+    NK s cs -> ~ In id (map kid (m_seen cs)) -> ontime_b cs ts = true ->
+    se' = match lookup key (n_sess s) with
+          | None => {| se_rows := [(id, ts, key)]; se_last := ts; se_start := ts; se_end := ts + ntimeout c |}
+          | Some se =>
+              if se_last se <? ts
+              then {| se_rows := se_rows se ++ [(id, ts, key)]; se_last := ts; se_start := se_start se;
+                      se_end := Z.max (se_end se) (ts + ntimeout c) |}
+              else {| se_rows := se_rows se ++ [(id, ts, key)]; se_last := se_last se; se_start := se_start se; se_end := se_end se |}
+          end ->
+    NWf c {| n_sess := put key se' (n_sess s); n_trig := n_trig s; n_w := update_event_time (nooo c) base ts (n_w s); n_pend := n_pend s |} ->
+    NK {| n_sess := put key se' (n_sess s); n_trig := n_trig s; n_w := update_event_time (nooo c) base ts (n_w s); n_pend := n_pend s |}
+       (cs_add cs id ts key).
+  Proof.
+    intros HK Hfresh Hon Hse' Hwf'. pose proof (add_WK s cs id ts key HK) as Hwk.
+    set (row := (id, ts, key)) in *.
+    assert (Hsn : nsane c base ts = true) by (unfold ontime_b in Hon; apply andb_prop in Hon as [H _]; exact H).
+    assert (Hnl : is_late ts (update_event_time (nooo c) base ts (n_w s)) = false).
+    { rewrite (late_iff_not_ontime s cs ts HK Hsn), Hon. reflexivity. }
+    assert (Hrows : forall r, In r (se_rows se') -> (exists se, In (key, se) (n_sess s) /\ In r (se_rows se)) \/ r = row).
+    { intros r Hr. rewrite Hse' in Hr. destruct (lookup key (n_sess s)) as [se|] eqn:El.
+      - apply lookup_in in El. destruct (se_last se <? ts); cbn [se_rows] in Hr;
+          (apply in_app_or in Hr as [Hr|[Hr|[]]]; [left; exists se; auto|right; auto]).
+      - cbn [se_rows] in Hr. destruct Hr as [Hr|[]]. right. auto. }
+    assert (Hrows2 : forall se r, In (key, se) (n_sess s) -> In r (se_rows se) -> In r (se_rows se')).
+    { intros se r Hin Hr. rewrite Hse'. rewrite (nodup_lookup_in _ _ _ (nk_keys _ _ HK) Hin).
+      destruct (se_last se <? ts); cbn [se_rows]; apply in_or_app; left; exact Hr. }
+    assert (Hrow : In row (se_rows se')).
+    { rewrite Hse'. destruct (lookup key (n_sess s)) as [se|]; [destruct (se_last se <? ts)|]; cbn [se_rows];
+        [apply in_or_app; right; left; reflexivity|apply in_or_app; right; left; reflexivity|left; reflexivity]. }
+    assert (Hnotem : ~ In id (m_emitted cs)) by (intros Hi; apply Hfresh; exact (nk_emit_seen _ _ HK id Hi)).
+    constructor; cbn [n_sess n_trig n_w n_pend]; try exact Hwk; try exact Hwf';
+      cbn [cs_add m_seen m_maxts m_ontime m_dw m_lastw m_fired m_emitted]; try rewrite Hon.
+    - apply put_nodup. exact (nk_keys _ _ HK).
+    - apply uet_ok. exact (nk_wmok _ _ HK).
+    - intros p Hp. apply uet_mono. exact (nk_pend _ _ HK p Hp).
+    - exact (nk_dw _ _ HK).
+    - rewrite map_app. apply NoDup_snoc; [exact (nk_nodup _ _ HK)|exact Hfresh].
+    - intros r Hr. apply in_app_or in Hr as [Hr|[Hr|[]]].
+      + destruct (nk_ont _ _ HK r Hr) as [H1 H2]. split; [apply in_or_app; left; exact H1|exact H2].
+      + subst r. split; [apply in_or_app; right; left; reflexivity|exact Hsn].
+    - intros i Hi. rewrite map_app. apply in_or_app. left. exact (nk_emit_seen _ _ HK i Hi).
+    - intros k se r Hin Hr. apply put_in in Hin as [[-> ->]|[Hne Hin]].
+      + destruct (Hrows r Hr) as [(se & Hin & Hr0)| ->].
+        * destruct (nk_sess _ _ HK key se r Hin Hr0) as [H1 H2]. split; [apply in_or_app; left; exact H1|exact H2].
+        * split; [apply in_or_app; right; left; reflexivity|exact Hnotem].
+      + destruct (nk_sess _ _ HK k se r Hin Hr) as [H1 H2]. split; [apply in_or_app; left; exact H1|exact H2].
+    - intros r Hr. apply in_app_or in Hr as [Hr|[Hr|[]]].
+      + destruct (nk_cover _ _ HK r Hr) as [Hem|(se & Hin & Hrin)]; [left; exact Hem|]. right.
+        destruct (Z.eq_dec (kkey r) key) as [Hk|Hk].
+        * exists se'. rewrite Hk in *. split; [left; reflexivity|exact (Hrows2 se r Hin Hrin)].
+        * exists se. split; [right; apply remove_key_keep; assumption|exact Hrin].
+      + subst r. right. exists se'. split; [left; reflexivity|exact Hrow].
+    - intros f Hf. apply uet_mono. exact (nk_fcur _ _ HK f Hf).
+    - intros f k se r Hf Hin Hfk Hr. apply put_in in Hin as [[-> ->]|[Hne Hin]].
+      + destruct (Hrows r Hr) as [(se & Hin & Hr0)| ->]; [exact (nk_fsess _ _ HK f key se r Hf Hin Hfk Hr0)|].
+        pose proof (uet_mono (nooo c) base ts (n_w s) (f_end f) (nk_fcur _ _ HK f Hf)) as Hole.
+        unfold is_late in Hnl. unfold ole in Hole. destruct (cur (update_event_time (nooo c) base ts (n_w s))) as [cv|]; [|contradiction].
+        apply Z.ltb_ge in Hnl. cbn. lia.
+      + exact (nk_fsess _ _ HK f k se r Hf Hin Hfk Hr).
+    - intros f Hf. apply fshape_both; [exact Hfresh|exact (nk_fshape _ _ HK f Hf)].
+    - exact (nk_fnd _ _ HK).
+    - exact (nk_trig _ _ HK).
+  Qed.
+
+  (* ---------------- a late row absorbed by the retained session of its key: one re-delivery ---------------- *)
+  Lemma batch_redeliver cs f row key st en rows :
+    f_key f = key -> f_start f = st -> f_end f = en -> f_rows f = rows ->
+    m_lastadd cs = Some row -> In f (m_fired cs) -> NoDup (map ks (m_fired cs)) -> (0 <? nlateness c) = true ->
+    kkey row = key -> st <= kts row -> kts row < en ->
+    fshape (m_seen cs) (m_ontime cs) f -> In row (m_seen cs) -> nsane c base (kts row) = true ->
+    nchk_ev c base cs (SvBatch key st en (rows ++ [row])) =
+      ({| m_seen := m_seen cs; m_maxts := m_maxts cs; m_ontime := m_ontime cs; m_dw := m_dw cs; m_lastw := m_lastw cs;
+          m_fired := replace_fsess {| f_key := key; f_start := st; f_end := en; f_rows := rows ++ [row] |} (m_fired cs);
+          m_lastadd := None; m_emitted := m_emitted cs ++ [kid row] |}, []).
+  Proof.
+    intros <- <- <- <- Hlast Hf Hnd Hlat Hk Hst Hen [_ Hsh] Hseen Hsn.
+    cbn [nchk_ev]. rewrite (find_fsess_nodup _ f Hnd Hf). rewrite Hlast.
+    assert (C1 : forallb (fun r => kkey r =? f_key f) (f_rows f ++ [row]) = true).
+    { apply forallb_forall. intros r Hr. apply Z.eqb_eq. apply in_app_or in Hr as [Hr|[<-|[]]]; [apply (Hsh r Hr)|exact Hk]. }
+    assert (C2 : forallb (fun r => krow_in r (m_seen cs)) (f_rows f ++ [row]) = true).
+    { apply forallb_forall. intros r Hr. apply krow_in_In. apply in_app_or in Hr as [Hr|[<-|[]]]; [apply (Hsh r Hr)|exact Hseen]. }
+    assert (C3 : existsb (fun r => negb (nsane c base (kts r))) (f_rows f ++ [row]) = false).
+    { apply existsb_false_all. intros r Hr. apply negb_false_iff. apply in_app_or in Hr as [Hr|[<-|[]]]; [apply (Hsh r Hr)|exact Hsn]. }
+    assert (C4 : (0 <? nlateness c) && krows_eqb (f_rows f ++ [row]) (f_rows f ++ [row]) && (kkey row =? f_key f)
+                 && (f_start f <=? kts row) && (kts row <? f_end f) = true).
+    { rewrite Hlat, krows_eqb_refl. cbn [andb]. apply andb_true_iff. split; [apply andb_true_iff; split|].
+      - apply Z.eqb_eq. exact Hk.
+      - apply Z.leb_le. exact Hst.
+      - apply Z.ltb_lt. exact Hen. }
+    rewrite C1, C2, C3, C4. reflexivity.
+  Qed.
+
+  Lemma NK_absorb s1 cs1 key t f row :
+    NK s1 cs1 -> In f (m_fired cs1) -> f_key f = key -> f_start f = se_start (ts_sess t) -> f_end f = se_end (ts_sess t) ->
+    f_rows f = se_rows (ts_sess t) ->
+    kkey row = key -> In row (m_seen cs1) -> ~ In row (m_ontime cs1) -> nsane c base (kts row) = true ->
+    NK {| n_sess := n_sess s1;
+          n_trig := put key {| ts_sess := {| se_rows := se_rows (ts_sess t) ++ [row]; se_last := se_last (ts_sess t);
+                                             se_start := se_start (ts_sess t); se_end := se_end (ts_sess t) |};
+                               ts_close := ts_close t |} (n_trig s1);
+          n_w := n_w s1; n_pend := n_pend s1 |}
+       {| m_seen := m_seen cs1; m_maxts := m_maxts cs1; m_ontime := m_ontime cs1; m_dw := m_dw cs1; m_lastw := m_lastw cs1;
+          m_fired := replace_fsess {| f_key := key; f_start := se_start (ts_sess t); f_end := se_end (ts_sess t);
+                                      f_rows := se_rows (ts_sess t) ++ [row] |} (m_fired cs1);
+          m_lastadd := None; m_emitted := m_emitted cs1 ++ [kid row] |}.
+  Proof.
+    intros HK Hf Hfk Hfs Hfe Hfr Hk Hseen Hnot Hsn.
+    set (f' := {| f_key := key; f_start := se_start (ts_sess t); f_end := se_end (ts_sess t); f_rows := se_rows (ts_sess t) ++ [row] |}).
+    assert (Hks : ks f = ks f') by (unfold ks, f'; cbn [f_key f_start]; rewrite Hfk, Hfs; reflexivity).
+    assert (Hnew : In f' (replace_fsess f' (m_fired cs1))) by (apply (replace_fsess_new f' _ f Hf Hks)).
+    assert (Hnotsess : forall k se r, In (k, se) (n_sess s1) -> In r (se_rows se) -> kid r <> kid row).
+    { intros k se r Hin Hr Heq. destruct (nk_sess _ _ HK k se r Hin Hr) as [H1 _].
+      assert (r = row) by (apply (nodup_kid_eq (m_seen cs1)); [exact (nk_nodup _ _ HK)|apply (nk_ont _ _ HK); exact H1|exact Hseen|exact Heq]).
+      subst r. exact (Hnot H1). }
+    constructor; cbn [n_sess n_trig n_w n_pend m_seen m_maxts m_ontime m_dw m_lastw m_fired m_emitted].
+    - exact (nk_keys _ _ HK).
+    - exact (nk_wf _ _ HK).
+    - exact (nk_wk _ _ HK).
+    - exact (nk_wmok _ _ HK).
+    - exact (nk_pend _ _ HK).
+    - exact (nk_dw _ _ HK).
+    - exact (nk_nodup _ _ HK).
+    - exact (nk_ont _ _ HK).
+    - intros i Hi. apply in_app_or in Hi as [Hi|[<-|[]]]; [exact (nk_emit_seen _ _ HK i Hi)|apply in_map; exact Hseen].
+    - intros k se r Hin Hr. destruct (nk_sess _ _ HK k se r Hin Hr) as [H1 H2]. split; [exact H1|].
+      intros Hi. apply in_app_or in Hi as [Hi|[Hi|[]]]; [exact (H2 Hi)|]. exact (Hnotsess k se r Hin Hr (eq_sym Hi)).
+    - intros r Hr. destruct (nk_cover _ _ HK r Hr) as [Hem|Hex]; [left; apply in_or_app; left; exact Hem|right; exact Hex].
+    - intros g Hg. apply replace_fsess_in in Hg as [->|Hg]; [|exact (nk_fcur _ _ HK g Hg)].
+      cbn [f' f_end]. rewrite <- Hfe. exact (nk_fcur _ _ HK f Hf).
+    - intros g k se r Hg Hin Hgk Hr. apply replace_fsess_in in Hg as [->|Hg]; [|exact (nk_fsess _ _ HK g k se r Hg Hin Hgk Hr)].
+      cbn [f' f_end f_key] in *. rewrite <- Hfe. apply (nk_fsess _ _ HK f k se r Hf Hin); [congruence|exact Hr].
+    - intros g Hg. apply replace_fsess_in in Hg as [->|Hg]; [|exact (nk_fshape _ _ HK g Hg)].
+      destruct (nk_fshape _ _ HK f Hf) as [H1 H2]. split; [cbn [f' f_start f_end]; lia|].
+      cbn [f' f_rows f_key f_end]. intros a Ha. apply in_app_or in Ha as [Ha|[<-|[]]].
+      + rewrite <- Hfr in Ha. destruct (H2 a Ha) as (A & B & C0 & D). split; [congruence|]. split; [exact B|]. split; [exact C0|].
+        intros Hao. rewrite <- Hfe. exact (D Hao).
+      + split; [exact Hk|]. split; [exact Hseen|]. split; [exact Hsn|]. intros Hao. contradiction.
+    - rewrite replace_fsess_ks. exact (nk_fnd _ _ HK).
+    - intros k t2 Hin. apply put_in in Hin as [[-> ->]|[Hne Hin]].
+      + exists f'. split; [exact Hnew|]. cbn. auto.
+      + destruct (nk_trig _ _ HK k t2 Hin) as (g & Hg & Hgk & Hrest). exists g. split; [|auto].
+        apply replace_fsess_keep; [exact Hg|]. unfold ks, f'. cbn [f_key f_start]. intros Heq. injection Heq as H1 _. congruence.
+  Qed.
+
+  Lemma add_sound s cs id ts key s' evs :
+    NK s cs -> ~ In id (map kid (m_seen cs)) -> nstep c s (NAdd id ts key base) = (s', evs) ->
+    exists cs' cls, nchk_evs cs evs = (cs', cls) /\ Forall okcl cls /\ NK s' cs' /\ m_seen cs' = m_seen cs ++ [(id, ts, key)].
+  Proof.
+    intros HK Hfresh Hst. pose proof (nstep_wf c s _ s' evs (nk_wf _ _ HK) Hst) as Hwf'.
+    cbn [nstep] in Hst. unfold nadd in Hst.
+    assert (Hinert : ontime_b cs ts = false ->
+              exists cs' cls, nchk_evs cs [SvAdd id ts key] = (cs', cls) /\ Forall okcl cls /\
+                NK {| n_sess := n_sess s; n_trig := n_trig s; n_w := update_event_time (nooo c) base ts (n_w s); n_pend := n_pend s |} cs' /\
+                m_seen cs' = m_seen cs ++ [(id, ts, key)]).
+    { intros Hno. cbn [nchk_evs]. rewrite add_ev. exists (cs_add cs id ts key), []. split; [reflexivity|]. split; [constructor|].
+      split; [apply NK_inert; assumption|reflexivity]. }
+    destruct (base + nooo c + day <? ts) eqn:Efar.
+    - injection Hst as <- <-. apply Hinert. unfold ontime_b, nsane.
+      assert (E : (ts <=? base + nooo c + day) = false) by (apply Z.leb_gt; apply Z.ltb_lt in Efar; lia). rewrite E. reflexivity.
+    - assert (Hsn : nsane c base ts = true) by (unfold nsane; apply Z.leb_le; apply Z.ltb_ge in Efar; lia).
+      rewrite (late_iff_not_ontime s cs ts HK Hsn) in Hst. destruct (ontime_b cs ts) eqn:Eo; cbn [negb] in Hst.
+      + injection Hst as <- <-. cbn [nchk_evs]. rewrite add_ev. exists (cs_add cs id ts key), []. split; [reflexivity|].
+        split; [constructor|]. split; [|reflexivity].
+        eapply NK_accept; [exact HK|exact Hfresh|exact Eo|reflexivity|exact Hwf'].
+      + destruct (0 <? nlateness c) eqn:Elat; [|injection Hst as <- <-; apply Hinert; reflexivity].
+        destruct (lookup key (n_trig s)) as [t|] eqn:Elk; [|injection Hst as <- <-; apply Hinert; reflexivity].
+        destruct (in_sess (ts_sess t) ts) eqn:Ein; [|injection Hst as <- <-; apply Hinert; reflexivity].
+        injection Hst as <- <-. cbn [se_start se_end se_rows].
+        pose proof (NK_inert s cs id ts key HK Hfresh Eo) as HK1.
+        apply lookup_in in Elk. destruct (nk_trig _ _ HK key t Elk) as (f & Hf & Hfk & Hfs & Hfe & Hfr).
+        unfold in_sess in Ein. apply andb_prop in Ein as [Ein1 Ein2]. apply Z.leb_le in Ein1. apply Z.ltb_lt in Ein2.
+        set (row := (id, ts, key)) in *.
+        assert (Hrowseen : In row (m_seen (cs_add cs id ts key))).
+        { cbn [cs_add m_seen]. apply in_or_app. right. left. reflexivity. }
+        assert (Hrownot : ~ In row (m_ontime (cs_add cs id ts key))).
+        { cbn [cs_add m_ontime]. rewrite Eo. intros Hin. apply Hfresh. apply (nk_ont _ _ HK) in Hin as [Hin _].
+          change id with (kid row). apply in_map. exact Hin. }
+        cbn [nchk_evs]. rewrite add_ev. cbn [nchk_evs].
+        pose proof (batch_redeliver (cs_add cs id ts key) f row key (se_start (ts_sess t)) (se_end (ts_sess t)) (se_rows (ts_sess t))
+                   Hfk Hfs Hfe Hfr eq_refl Hf (nk_fnd _ _ HK1) Elat eq_refl Ein1 Ein2 (nk_fshape _ _ HK1 f Hf) Hrowseen Hsn) as X.
+        unfold krow in X |- *. rewrite X.
+        eexists. exists []. split; [reflexivity|]. split; [constructor|]. split; [|reflexivity].
+        exact (NK_absorb _ _ key t f row HK1 Hf Hfk Hfs Hfe Hfr eq_refl Hrowseen Hrownot Hsn).
+  Qed.
+  (* ---------------- the other steps ---------------- *)
+  Lemma clear_NK s cs : NK s cs -> NK s (clear_nlast cs).
+  Proof. intros [? ? ? ? ? ? ? ? ? ? ? ? ? ? ? ?]. constructor; cbn; assumption. Qed.
+
+  Lemma deliver_begin_sound s cs s' evs :
+    NK s cs -> nstep c s NDeliverBegin = (s', evs) ->
+    exists cs' cls, nchk_evs cs evs = (cs', cls) /\ Forall okcl cls /\ NK s' cs' /\ m_seen cs' = m_seen cs.
+  Proof.
+    intros HK Hst. cbn [nstep] in Hst. destruct (n_pend s) as [p|] eqn:Ep.
+    - injection Hst as <- <-. exists cs, []. cbn [nchk_evs]. split; [reflexivity|]. split; [constructor|]. split; [exact HK|reflexivity].
+    - destruct (pop_chan (n_w s)) as [[x w']|] eqn:Epop; injection Hst as <- <-.
+      + destruct (pop_WK tc base _ _ _ _ _ _ (nk_wk _ _ HK) Epop) as (Hwk & (r & Hr & Hsn & Hx) & Hlt).
+        assert (Hpop : cur w' = cur (n_w s) /\ chan (n_w s) = x :: chan w').
+        { unfold pop_chan in Epop. destruct (chan (n_w s)) as [|y l] eqn:Ech; [discriminate|]. injection Epop as <- <-. cbn. auto. }
+        destruct Hpop as [Hcur Hch].
+        pose proof (nk_wmok _ _ HK) as Hok. unfold wm_ok in Hok. rewrite Hch in Hok. inversion Hok as [|y l Hx0 Hrest]; subst y l.
+        cbn [nchk_evs nchk_ev].
+        assert (E1 : existsb (fun r => nsane c base (kts r) && (kts r - nooo c =? x)) (m_seen cs) = true).
+        { apply in_map_iff in Hr as (kr & <- & Hkr). apply existsb_exists. exists kr. split; [exact Hkr|].
+          apply andb_true_iff. split; [exact Hsn|apply Z.eqb_eq; exact Hx]. }
+        assert (E2 : match m_lastw cs with Some l => x <=? l | None => false end = false).
+        { destruct (m_lastw cs) as [l|]; [apply Z.leb_gt; exact Hlt|reflexivity]. }
+        rewrite E1, E2. cbn [negb orb cl_if app]. eexists. exists []. split; [reflexivity|]. split; [constructor|].
+        split; [|reflexivity].
+        destruct HK as [? ? ? ? ? ? ? ? ? ? ? Hfc ? ? ? ?].
+        constructor; cbn [n_sess n_trig n_w n_pend m_seen m_maxts m_ontime m_dw m_lastw m_fired m_emitted]; try assumption.
+        * unfold wm_ok. rewrite Hcur. exact Hrest.
+        * intros p [= <-]. rewrite Hcur. exact Hx0.
+        * reflexivity.
+        * intros f Hf. rewrite Hcur. exact (Hfc f Hf).
+      + cbn [nchk_evs nchk_ev]. eexists. exists []. split; [reflexivity|]. split; [constructor|].
+        split; [apply clear_NK; exact HK|reflexivity].
+  Qed.
+
+  Lemma tick_sound s cs now s' evs :
+    NK s cs -> nstep c s (NTick now) = (s', evs) ->
+    exists cs' cls, nchk_evs cs evs = (cs', cls) /\ Forall okcl cls /\ NK s' cs' /\ m_seen cs' = m_seen cs.
+  Proof.
+    intros HK Hst. cbn [nstep] in Hst. injection Hst as <- <-. cbn [nchk_evs nchk_ev].
+    eexists. exists []. split; [reflexivity|]. split; [constructor|]. split; [|reflexivity]. apply clear_NK.
+    pose proof (tick_WK tc base eq_refl (n_w s) _ _ _ now (nk_wk _ _ HK)) as Hwk.
+    destruct HK as [? ? ? Hok Hp ? ? ? ? ? ? Hfc ? ? ? ?].
+    constructor; cbn [n_sess n_trig n_w n_pend]; try assumption.
+    - apply tick_ok. exact Hok.
+    - intros p Hpp. apply tick_mono. exact (Hp p Hpp).
+    - intros f Hf. apply tick_mono. exact (Hfc f Hf).
+  Qed.
+
+  (* ---------------- every step, every history ---------------- *)
+  Definition nop_okc (cs : ncst) (o : nop) : Prop :=
+    match o with NAdd id _ _ now => now = base /\ ~ In id (map kid (m_seen cs)) | _ => True end.
+
+  Lemma step_sound s cs o s' evs :
+    NK s cs -> nop_okc cs o -> nstep c s o = (s', evs) ->
+    exists cs' cls, nchk_evs cs evs = (cs', cls) /\ Forall okcl cls /\ NK s' cs' /\
+                    map kid (m_seen cs') = map kid (m_seen cs) ++ op_ids o.
+  Proof.
+    intros HK Hok Hst. destruct o as [id ts key now|id| | |now].
+    - destruct Hok as (-> & Hfresh). destruct (add_sound s cs id ts key s' evs HK Hfresh Hst) as (cs' & cls & A & B & C0 & D).
+      exists cs', cls. split; [exact A|]. split; [exact B|]. split; [exact C0|]. rewrite D, map_app. reflexivity.
+    - cbn [nstep] in Hst. injection Hst as <- <-. cbn [nchk_evs nchk_ev]. eexists. exists []. split; [reflexivity|].
+      split; [constructor|]. split; [apply clear_NK; exact HK|]. cbn [op_ids clear_nlast m_seen]. rewrite app_nil_r. reflexivity.
+    - destruct (deliver_begin_sound s cs s' evs HK Hst) as (cs' & cls & A & B & C0 & D).
+      exists cs', cls. split; [exact A|]. split; [exact B|]. split; [exact C0|]. rewrite D. cbn [op_ids]. rewrite app_nil_r. reflexivity.
+    - destruct (fire_sound s cs s' evs HK Hst) as (cs' & cls & A & B & C0 & D).
+      exists cs', cls. split; [exact A|]. split; [exact B|]. split; [exact C0|]. rewrite D. cbn [op_ids]. rewrite app_nil_r. reflexivity.
+    - destruct (tick_sound s cs now s' evs HK Hst) as (cs' & cls & A & B & C0 & D).
+      exists cs', cls. split; [exact A|]. split; [exact B|]. split; [exact C0|]. rewrite D. cbn [op_ids]. rewrite app_nil_r. reflexivity.
+  Qed.
+
+  Definition nhist_ok (o : nop) : Prop := match o with NAdd _ _ _ now => now = base | _ => True end.
+
+  Lemma run_sound h : forall s cs,
+    NK s cs -> Forall nhist_ok h -> NoDup (map kid (m_seen cs) ++ flat_map op_ids h) ->
+    Forall okcl (nchk_trace c base cs (snd (nrun c s h))).
+  Proof.
+    induction h as [|o h IH]; intros s cs HK Hok Hnd; [constructor|].
+    inversion Hok as [|o' h' Ho Hh]; subst. cbn [nrun].
+    destruct (nstep c s o) as [s1 e1] eqn:E1. destruct (nrun c s1 h) as [s2 e2] eqn:E2. cbn [snd].
+    assert (Hokc : nop_okc cs o).
+    { destruct o as [id ts key now| | | |]; cbn; auto. split; [exact Ho|].
+      cbn [flat_map op_ids app] in Hnd. intros Hin. apply NoDup_remove_2 in Hnd. apply Hnd. apply in_or_app. left. exact Hin. }
+    destruct (step_sound s cs o s1 e1 HK Hokc E1) as (cs' & cls & A & B & C0 & D).
+    rewrite nchk_trace_app, A. cbn [fst snd]. apply Forall_app. split; [exact B|].
+    specialize (IH s1 cs' C0 Hh). rewrite E2 in IH. cbn [snd] in IH. apply IH.
+    rewrite D. cbn [flat_map] in Hnd. rewrite <- app_assoc. exact Hnd.
+  Qed.
+
+  Lemma NK0 : NK nst0 ncst0.
+  Proof.
+    constructor; cbn; try (constructor; fail); try (intros; contradiction); try (intros; discriminate); auto.
+    - constructor; cbn; try constructor; try reflexivity. intros m H; discriminate.
+    - intros i [].
+  Qed.
+
+  (* on every trace of the model the checker reports no clause other than the two recorded findings *)
+  Theorem model_only_known_clauses h :
+    Forall nhist_ok h -> NoDup (flat_map op_ids h) ->
+    forall cl, In cl (chk_C10 c base (snd (nrun c nst0 h))) -> cl = NGapNotSplit \/ cl = NStartNotEarliest.
+  Proof.
+    intros Hok Hnd cl Hin. pose proof (run_sound h nst0 ncst0 NK0 Hok Hnd) as H. rewrite Forall_forall in H. exact (H cl Hin).
+  Qed.
+
+  (* the same, with the hypothesis on the wall clock spelled out *)
+  Corollary model_only_known_clauses_clock h :
+    (forall id ts key now, In (NAdd id ts key now) h -> now = base) -> NoDup (flat_map op_ids h) ->
+    forall cl, In cl (chk_C10 c base (snd (nrun c nst0 h))) -> cl = NGapNotSplit \/ cl = NStartNotEarliest.
+  Proof.
+    intros Hclk. apply model_only_known_clauses. apply Forall_forall. intros o Ho.
+    destruct o as [id ts key now| | | |]; cbn; auto. exact (Hclk id ts key now Ho).
+  Qed.
 End SessSound.
+
+(* both remaining clauses are reachable: the recorded findings F3a and F3c, as seen by the checker itself *)
+Example gap_clause_reachable :
+  chk_C10 ncfg1 0 (snd (nrun ncfg1 nst0 ([NAdd 1 10000 1 0; NAdd 2 10100 1 0; NAdd 3 15000 1 0] ++ drainN ++ [NAdd 4 30000 99 0] ++ drainN)))
+  = [NGapNotSplit].
+Proof. vm_compute. reflexivity. Qed.
+
+Example start_clause_reachable :
+  chk_C10 {| ntimeout := 1000; nooo := 500; nlateness := 0 |} 0
+    (snd (nrun {| ntimeout := 1000; nooo := 500; nlateness := 0 |} nst0 ([NAdd 1 10400 1 0; NAdd 2 10100 1 0; NAdd 3 30000 99 0] ++ drainN)))
+  = [NStartNotEarliest].
+Proof. vm_compute. reflexivity. Qed.
